@@ -42,6 +42,11 @@ CLAIMED = {
          "The configuration product is enumerated completely in both tiers (quick: 2 advertised AUTH lists, thorough: 7); credentials are fresh random tokens per case.",
          "Real TCP on 127.0.0.1/127.0.0.2; the harness CA is installed as the only system root through SSL_CERT_FILE so that the client's default verification is what is tested; server behaviours are the enumerated ones, not arbitrary byte streams.",
          "DESIGN.md section 3, C07"),
+ "C08": ("exploration",
+         "rapid-generated message programs x key types x chain shapes x signing APIs, each rendered twice; oracle: own MIME reader + own CMS SignedData verifier (encoding/asn1 + crypto/*): structure, SHA-256 of the first part exactly as emitted == message-digest attribute, DER SET order, signature under the carried signer certificate, intermediate carried iff given, leaves of the signed entity == model, identical signed entity across renders",
+         "Generated-input search with an independent verifier as oracle; sampled.",
+         "The CMS verifier is the harness' own (validated by the cases that verify); certificate path validation to a trust anchor is not part of the property; contents are in canonical CRLF form.",
+         "DESIGN.md section 3, C08"),
  "C09": ("exploration",
          "grammar-based EML generator + structure-aware mutations + renderings of generated messages + arbitrary bytes, under six reader behaviours (rapid); repository fixtures and a hostile-constant corpus under every reader behaviour; thorough adds native coverage-guided fuzzing (go test -fuzz) with the oracle inside the target; oracle: returns without panic within a generous wall-clock bound",
          "Generated-input search for crashes and hangs; sampled. Native fuzzing cannot be pinned to a seed: its campaigns are evidence of effort, its crashers are the reproducible artefact.",
